@@ -306,6 +306,7 @@ def run_shard(desc, seed, tier, col):
 
     def body(case):
         seen = set()
+        col.begin(case)
         for f in run_case(case, col):
             key = (f['sub'], f['kind'], f['sig'])
             if key in seen:
